@@ -14,6 +14,9 @@ REQ = ['Fitness.Fitness']
 # (2^-40 apart), clearly separated (>= 2^-20 apart), sign changes, zero
 GRID = [-2.0, -1.0, 0.0, 2.0 ** -40, 1.0, 1.0 + 2.0 ** -40, 1.0 + 2.0 ** -20, 2.0]
 SMALL = [-1.0, 0.0, 1.0, 1.0 + 2.0 ** -40, 1.0 + 2.0 ** -20]
+# pairs equal within tolerance (2^-44 apart) that straddle a rounding boundary of round(v, 8):
+# a comparison through rounded values (as the hash does) would call them different
+BOUNDARY = [1.5e-8 - 2.0 ** -45, 1.5e-8 + 2.0 ** -45, 1.0 + 2.5e-8 - 2.0 ** -45, 1.0 + 2.5e-8 + 2.0 ** -45]
 
 
 class F:
@@ -75,6 +78,10 @@ def pool(ctx):
         out.append(F('S', v, ()))
         out.append(F('M', (v,), (1.0,)))
         out.append(F('M', (v,), (-1.0,)))
+    for v in BOUNDARY:
+        out.append(F('S', v, ()))
+        out.append(F('M', (v,), (1.0,)))
+        out.append(F('S', 1.0, (v,)))
     for v, w in itertools.product(SMALL, SMALL):
         out.append(F('S', v, (w,)))
         out.append(F('M', (v, w), (1.0, 1.0)))
